@@ -1,4 +1,5 @@
 import IGVerif.Model.TabPrint
+import IGVerif.Proofs.Rect
 import IGVerif.Gen.Facts
 /-! C07 — tabular output is machine-parseable for every input and option. -/
 namespace IGVerif.C07
@@ -72,5 +73,55 @@ def cleanWrites : List String :=
 
 theorem matrix_writes_are_sanitised :
     Gen.entryMapWrites.all (fun w => cleanWrites.contains w.2.2) = true := by decide
+
+/-- the output adjustment adds nothing but apostrophes -/
+theorem adjust_keeps_clean (gs : Bool) (c : Char) (s : Str) (hc : c ∉ s) (h1 : c ≠ '\'') : c ∉ adjust gs s := by
+  have he : c ∉ escape s := by
+    simp only [escape, List.mem_map, not_exists, not_and]
+    intro x hx
+    split
+    · exact fun e => h1 e.symm
+    · exact fun e => hc (e ▸ hx)
+  unfold adjust
+  split
+  · simp only [List.mem_cons, not_or]; exact ⟨h1, he⟩
+  · exact he
+
+/-- **Rectangular table**: in the output of `printTabularOutput` (both formats, every
+    combination of header / Original Statement / IG Script options, any rows) each data line
+    carries exactly as many cell separators as the header line, for arbitrary user text in
+    the two statement columns — they pass `CleanInput` and the output adjustment — provided
+    the row cells are separator-free (next theorem: they are sanitised values). -/
+theorem data_lines_match_header (hdr : List (Str × Str)) (o : POpts) (sep : Char) (orig script : Str) (r : Row) (i : Nat)
+    (hnames : ∀ h ∈ hdr, sep ∉ h.2) (hvals : ∀ h ∈ hdr, sep ∉ r.get h.1)
+    (hko : sep ∉ kOrig) (hks : sep ∉ kScript) (hsp : sep ≠ ' ') (hap : sep ≠ '\'') :
+    (headLine hdr o sep).count sep =
+      (rowLine hdr o sep (adjust o.gs (cleanInput sep orig)) (adjust o.gs (cleanInput sep script)) r i).count sep :=
+  line_count hdr o sep _ _ r i hnames hvals
+    (adjust_keeps_clean _ _ _ (cleanInput_clean sep hsp orig).1 hap)
+    (adjust_keeps_clean _ _ _ (cleanInput_clean sep hsp script).1 hap) hko hks hsp
+
+/-- no line break and no double quote inside a data line (so a Google Sheets line is one
+    complete `=SPLIT("…"; "|")` formula and a CSV line is one record) -/
+theorem data_lines_have_no_break_or_quote (hdr : List (Str × Str)) (o : POpts) (sep : Char) (orig script : Str) (r : Row) (i : Nat)
+    (hv1 : ∀ h ∈ hdr, '\n' ∉ r.get h.1) (hv2 : ∀ h ∈ hdr, '"' ∉ r.get h.1)
+    (hs1 : sep ≠ '\n') (hs2 : sep ≠ '"') (hsp : sep ≠ ' ') :
+    '\n' ∉ rowLine hdr o sep (adjust o.gs (cleanInput sep orig)) (adjust o.gs (cleanInput sep script)) r i ∧
+    '"' ∉ rowLine hdr o sep (adjust o.gs (cleanInput sep orig)) (adjust o.gs (cleanInput sep script)) r i := by
+  constructor
+  · exact rowLine_free '\n' hdr o sep _ _ r i hv1
+      (adjust_keeps_clean _ _ _ (cleanInput_clean sep hsp orig).2.1 (by decide))
+      (adjust_keeps_clean _ _ _ (cleanInput_clean sep hsp script).2.1 (by decide)) (fun e => hs1 e.symm) (by decide)
+  · exact rowLine_free '"' hdr o sep _ _ r i hv2 (adjust_no_quote _ _) (adjust_no_quote _ _) (fun e => hs2 e.symm) (by decide)
+
+/-- the printed table is exactly: optional header line, then one framed line per row -/
+theorem output_is_header_then_rows (hdr : List (Str × Str)) (rows : List Row) (orig script : Str) (o : POpts) (sep : Char)
+    (pre suf : Str) :
+    printRows hdr rows orig script o sep pre suf =
+      (if o.headers then pre ++ headLine hdr o sep ++ suf else []) ++
+      (rows.zipIdx.flatMap fun (r, i) => pre ++ ['\''] ++ rowLine hdr o sep orig script r i ++ suf) :=
+  printRows_lines hdr rows orig script o sep pre suf
+
+example : '|' ∉ kOrig ∧ '|' ∉ kScript ∧ '|' ≠ ' ' ∧ '|' ≠ '\'' ∧ '|' ≠ '\n' ∧ '|' ≠ '"' := by decide
 
 end IGVerif.C07
